@@ -195,10 +195,18 @@ def main(outdir):
         if path not in ROUTE_IDS:
             raise Fail('route %r is not in the documented route table' % path)
         targets = []
-        for mk, mv in zip(v.keys, v.values):
-            if mk.value not in METHODS:
-                raise Fail('method %r' % mk.value)
-            targets.append((mk.value, dotted(mv)))
+        if isinstance(v, ast.Dict):
+            pairs = [(mk.value, mv) for mk, mv in zip(v.keys, v.values)]
+        elif isinstance(v, ast.Call) and isinstance(v.func, ast.Name) and v.func.id == 'dict' and not v.args \
+                and all(kw.arg is not None for kw in v.keywords):
+            # the same mapping written dict(GET=f, PUT=g): keyword order is insertion order
+            pairs = [(kw.arg, kw.value) for kw in v.keywords]
+        else:
+            raise Fail('route %r: methods not a dict literal or a dict(METHOD=handler, ...) call' % path)
+        for mk, mv in pairs:
+            if mk not in METHODS:
+                raise Fail('method %r' % mk)
+            targets.append((mk, dotted(mv)))
         routes.append((path, targets))
 
     # handler modules
@@ -241,7 +249,7 @@ def main(outdir):
             for fn in funcs[f]:
                 gates.extend(gates_in(fn, funcs, mod))
             handlers[name] = {'overloads': overloads, 'rule': rule_name, 'check_first': first, 'target': target,
-                              'gates': sorted(gates)}
+                              'gates': sorted(set(gates))}
 
     # policies
     rules = {}
@@ -256,9 +264,15 @@ def main(outdir):
     dsrc = ast.parse(open(os.path.join(REPO, 'placement', 'deploy.py')).read())
     mw = None
     for node in ast.walk(dsrc):
-        if isinstance(node, ast.For) and isinstance(node.iter, ast.Tuple) and isinstance(node.target, ast.Name) \
-                and node.target.id == 'middleware':
-            mw = [e.id for e in node.iter.elts]
+        if isinstance(node, ast.For) and isinstance(node.target, ast.Name) and node.target.id == 'middleware':
+            it = node.iter
+            if isinstance(it, ast.Name):
+                # the tuple bound to a local name first: exactly one assignment of a tuple to that name
+                binds = [a.value for a in ast.walk(dsrc) if isinstance(a, ast.Assign) and len(a.targets) == 1
+                         and isinstance(a.targets[0], ast.Name) and a.targets[0].id == it.id]
+                it = binds[0] if len(binds) == 1 else None
+            if isinstance(it, ast.Tuple) and all(isinstance(e, ast.Name) for e in it.elts):
+                mw = [e.id for e in it.elts]
     if mw is None:
         raise Fail('middleware tuple not found in deploy()')
     expected_mw = ['fault_middleware', 'context_middleware', 'auth_middleware', 'cors_middleware', 'request_log',
